@@ -35,6 +35,7 @@ Fixpoint set_nth {A} (n : nat) (x : A) (l : list A) : list A :=
 Definition lstep (key : bytes) (c : lcmd) (l : slist) : slist * reply :=
   match c with
   | LCinvalid => (l, RErr)
+  | LCfixkey => (l, RNil)                  (* ZanRedisDB's repair command: nothing to repair in the reference model *)
   | LCpush tail vs =>
       if too_many vs then (l, RErr)
       else if negb (key_ok key) then (l, RErr)
